@@ -25,6 +25,7 @@ var c07Plan = []planEntry{
 	{spaces.XList, 5, 6},
 	{spaces.B, 5, 6},
 	{spaces.L, 3, 4},
+	{spaces.XPhrase, 4, 5},
 }
 
 func hasRawNodes(blocks []*cm.RootBlock) bool {
@@ -45,7 +46,7 @@ func hasRawNodes(blocks []*cm.RootBlock) bool {
 func init() {
 	register(&Check{
 		ID:   "C07",
-		Rule: "every token sequence up to the stated length over each declared alphabet is parsed and rendered with IgnoreRaw=true under the three soft-break behaviours, and with IgnoreRaw=false under the three behaviours when the tree has no HTML block / raw HTML / HTML tag node (FilterTag unset); every output must be accepted by the strict scanner ref.CheckSafeHTML; non-trivial = the output contains an attribute or a character reference, or the input contains one of \" < > & '",
+		Rule: "every token sequence up to the stated length over each declared alphabet is parsed and rendered with IgnoreRaw=true under the three soft-break behaviours, and with IgnoreRaw=false under the three behaviours when the tree has no HTML block / raw HTML / HTML tag node (FilterTag unset), and in each case additionally with FilterTag=GFM, with a predicate that rejects nothing, and with a nil ReferenceMap; every output must be accepted by the strict scanner ref.CheckSafeHTML; non-trivial = the output contains an attribute or a character reference, or the input contains one of \" < > & '",
 		Assumptions: []string{
 			"output language: elements {p hr h1-h6 pre code blockquote ol ul li em strong a img br}; attributes {code.class ol.start a.href a.title img.src img.title img.alt}; attributes are ' name=\"value\"' separated by one space; no raw < in text or values, no raw \" in values; every & begins &#d+; &#xh+; or &name; with name in the HTML5 table",
 			"HTML5 entity table generated from Python's html.entities (dev time)",
@@ -55,6 +56,16 @@ func init() {
 			c.forPlan(c07Plan, c07Driver)
 		},
 	})
+}
+
+var c07AltConfigs = []struct {
+	name   string
+	filter func([]byte) bool
+	noRefs bool
+}{
+	{"Filter=GFM", cm.FilterTagGFM, false},
+	{"Filter=never", func([]byte) bool { return false }, false},
+	{"ReferenceMap=nil", nil, true},
 }
 
 func c07Driver(x *X, in []byte) {
@@ -82,6 +93,20 @@ func c07Driver(x *X, in []byte) {
 			if err != nil {
 				x.Fail("unsafe-output", fmt.Sprintf("IgnoreRaw=%v,SoftBreak=%d", ignore, sb), in, "%v\noutput: %q", err, out)
 				return
+			}
+			// The other renderer settings must not reopen the door: a tag predicate
+			// next to IgnoreRaw (it may only escape more), and a reference map that
+			// lacks the document's definitions (the zero HTMLRenderer is usable).
+			for _, alt := range c07AltConfigs {
+				r := &cm.HTMLRenderer{ReferenceMap: refs, SoftBreakBehavior: sb, IgnoreRaw: ignore, FilterTag: alt.filter}
+				if alt.noRefs {
+					r.ReferenceMap = nil
+				}
+				o2, _ := renderHTML(r, blocks)
+				if _, err := ref.CheckSafeHTML(o2); err != nil {
+					x.Fail("unsafe-output", fmt.Sprintf("IgnoreRaw=%v,SoftBreak=%d,%s", ignore, sb, alt.name), in, "%v\noutput: %q", err, o2)
+					return
+				}
 			}
 			if ignore && sb == 0 {
 				if len(st.Attrs) > 0 || st.CharRefs > 0 {
